@@ -58,7 +58,7 @@ def all_blocks(limit_files=None):
 
 
 def sample_blocks(rng, n, min_len=3, max_len=40):
-    key = ("blocks",)
+    key = ("blocks", min_len, max_len)      # (the filter is part of the key: one pool per caller's bounds)
     if key not in _cache:
         _cache[key] = [b for b in all_blocks() if min_len <= len(AJ.optimizable(b)) <= max_len]
     pool = _cache[key]
